@@ -110,8 +110,9 @@ def exec_ordered(g, keys, policy="fifo", rng=None, prefer=None, check_mutation=T
         if check_mutation:
             emb = []
             _embedded_pd(task, emb)
-            before = [(d, fp(cache[d])) for d in deps[key]]
+            before = [(d, produced_fp[d]) for d in deps[key]]  # fingerprint taken when the value was produced
             before_emb = [fp(x) for x in emb]
+            before_task = fp(task)  # the task definition itself (embedded dicts such as Fused sub-graphs, kwargs, literals)
         val = _execute_task(task, cache)
         cache[key] = val
         order.append(key)
@@ -122,6 +123,8 @@ def exec_ordered(g, keys, policy="fifo", rng=None, prefer=None, check_mutation=T
             for x, f0 in zip(emb, before_emb):
                 if fp(x) != f0:
                     mutations.append({"kind": "embedded-literal-mutated", "task": _kname(key)})
+            if fp(task) != before_task and not any(m.get("task") == _kname(key) for m in mutations):
+                mutations.append({"kind": "task-definition-mutated", "task": _kname(key)})
             produced_fp[key] = fp(val)
         for dep in sorted(dependents[key], key=repr):
             waiting[dep].discard(key)
